@@ -351,6 +351,29 @@ def specObs {σ} (p : Policy) (g : Nat) : Nat → AMap σ → List (Nat × Op σ
     let r := specStep p ((now + d) / g) (absOp g (now + d) op) a
     r.2 :: specObs p g (now + d) r.1 h
 
+/-! ## The two recorded SQLite findings, as predicates on a call about to happen -/
+
+/-- Finding 1: `create` on an id whose row is live (answers `Ok`, writes nothing). -/
+def sqlCreateOnLive {σ} (now : Nat) (op : Op σ) (t : Tbl σ) : Bool :=
+  match op with
+  | .create i _ _ => (sqlSel t (now / 1000) i).isSome
+  | _ => false
+
+/-- Finding 2: `change_id` of a live record onto an id whose *expired* row is still in the table
+    (answers `DuplicateId`). -/
+def sqlSquattedRename {σ} (now : Nat) (op : Op σ) (t : Tbl σ) : Bool :=
+  match op with
+  | .changeId o n =>
+    (sqlSel t (now / 1000) o).isSome && n != o && (get t n).isSome && (sqlSel t (now / 1000) n).isNone
+  | _ => false
+
+/-- Does some call of the history (run with `step`) satisfy `pred` at the moment it happens? -/
+def anyStep {σ S R} (step : Nat → Op σ → S → S × R) (pred : Nat → Op σ → S → Bool) :
+    Nat → S → List (Nat × Op σ) → Bool
+  | _, _, [] => false
+  | now, s, (d, op) :: h =>
+    pred (now + d) op s || anyStep step pred (now + d) (step (now + d) op s).1 h
+
 /-! ## Concurrency: interleavings of atomic calls
 
 `progs[k]` is what task `k` still has to do. A schedule is a list of ticks: some time passes, then
